@@ -141,7 +141,11 @@ def run(chk):
                 ce.env[nm] = cell
             elif nm in roles['iaz']:
                 ce.env[nm] = iaz
-        ce.run(fn.body[k0:])
+        try:
+            ce.run(fn.body[k0:])
+        except AnalysisError as e:
+            # e.g. a division by an identically-zero quantity: an axis that was never assigned for this cap
+            ce.problem(ce.cur or fn, f'evaluation stopped: {e}')
         for node, text in ce.problems:
             key = (node.lineno, text.split(':')[0][:40])
             if key not in reported:
